@@ -478,8 +478,10 @@ func c17Schema(r *Rng) *sSet {
 			d := &sDef{kind: "object", name: op, desc: genDesc(r, false), fields: []*sField{{name: strings.ToLower(op[:1]) + "0", t: named("Int")}}}
 			set.defs = append(set.defs, d)
 			set.by[op] = d
+			// a schema block names the root or leaves it out: a type that is merely *called* Mutation is then not
+			// the mutation root
 			for _, sd := range set.defs {
-				if sd.kind == "schema" {
+				if sd.kind == "schema" && r.Chance(55) {
 					sd.roots = append(sd.roots, [2]string{strings.ToLower(op), op})
 				}
 			}
